@@ -197,6 +197,16 @@ def corruptions(doc, ver, clsname=None, dictionary=None):
     # optional properties not present: add with a wrong-kind value, and present co-constraint partners
     for c in constraint_breaks(doc, ver, clsname):
         out.append(c)
+    # the fixed TLP instances: colour, identifier (and 2.1 name) belong together -- pair each with another instance's
+    if doc.get("type") == "marking-definition" and doc.get("definition_type") == "tlp" and isinstance(doc.get("definition"), dict):
+        cur = doc["definition"].get("tlp")
+        for color in sorted(m.tlp):
+            if color == cur:
+                continue
+            out.append(_set(("definition", "tlp"), "tlp:other-colour=" + color, color))
+            out.append(_set(("id",), "tlp:other-instance-id=" + color, m.tlp[color]))
+            if "name" in doc:
+                out.append({"path": ["definition", "tlp"], "op": "set", "kind": "tlp:other-colour-and-name=" + color, "value": color, "also_set_top": {"name": "TLP:" + color.upper()}})
     out.append(_set(("type",), "type:other", "identity" if doc.get("type") != "identity" else "malware"))
     out.append(_set(("type",), "type:unknown", "no-such-type"))
     return out
@@ -305,6 +315,8 @@ def apply(doc, c):
             cur[leaf] = copy.deepcopy(c["value"])
         else:
             cur[leaf] = copy.deepcopy(c["value"])
+    for k, v in (c.get("also_set_top") or {}).items():
+        out[k] = v
     if c.get("also_set") or c.get("also_del"):
         parent = out
         for comp in path[:-1]:
